@@ -388,13 +388,13 @@ class Interp:
         strong = getattr(self, '_strong_prune', 0) > 0
         if key in self._feas_cache and (self._feas_cache[key][2] or not strong):
             return self._feas_cache[key][0]
-        s = z3.Solver()
+        s = z3.Solver() if os.environ.get('PYVC_PRUNE_SOLVER') == 'default' else z3.SimpleSolver()      # the incremental SMT core: no tactic preprocessing (ctx-simplify can run for minutes and ignores the limits)
         # a deterministic resource limit decides how long a feasibility check may take, NOT the wall clock: the set of explored
         # paths (and so the verdict) must not depend on how busy the machine is.  The wall-clock timeout is only a safety net.
         # (the guard of a loop that is being unrolled gets ten times the budget: an undecided guard there means another
         # iteration, and after 40 of them the function is given up as outside reach)
         s.set('rlimit', self.prune_rlimit * (10 if strong else 1))
-        s.set('timeout', max(20000, self.prune_timeout_ms * 50) * (4 if strong else 1))
+        s.set('timeout', max(4000, self.prune_timeout_ms * 10) * (5 if strong else 1))
         # quantified lemma axioms only slow a satisfiability check down; dropping them weakens
         # the query, which is sound for pruning (unsat of a subset => unsat of the whole)
         s.add(*[f for f in pc if not z3.is_quantifier(f)])
